@@ -10,6 +10,8 @@ pub struct ListStylist<'a> {
     printer: &'a PrettyPrinter<'a>,
     can_attach: bool,
     free_comments: Vec<ArenaDoc<'a>>,
+    /// Whether the last free comment is a line comment.
+    free_ends_with_line_comment: bool,
     peek_hash: bool,
     items: Vec<Item<'a>>,
     real_item_count: usize,
@@ -31,6 +33,8 @@ enum Item<'a> {
         body: ArenaDoc<'a>,
         /// Attached comments. Leading space included.
         after: Option<ArenaDoc<'a>>,
+        /// Whether the attached comments end with a line comment.
+        after_ends_with_line_comment: bool,
     },
     /// Linebreaks
     Linebreak(usize),
@@ -82,6 +86,7 @@ impl<'a> ListStylist<'a> {
             printer,
             can_attach: false,
             free_comments: Default::default(),
+            free_ends_with_line_comment: false,
             peek_hash: false,
             items: Default::default(),
             real_item_count: 0,
@@ -213,6 +218,7 @@ impl<'a> ListStylist<'a> {
         self.items.push(Item::Commented {
             body: (before + hash + item_body),
             after: None,
+            after_ends_with_line_comment: false,
         });
         self.can_attach = true;
     }
@@ -226,6 +232,7 @@ impl<'a> ListStylist<'a> {
                     self.has_line_comment = true;
                     self.fold_style = FoldStyle::Never;
                 }
+                self.free_ends_with_line_comment = node.kind() == SyntaxKind::LineComment;
                 self.free_comments
                     .push(self.printer.convert_comment(ctx, node));
             }
@@ -270,7 +277,13 @@ impl<'a> ListStylist<'a> {
     fn try_attach_comments(&mut self) -> bool {
         if self.can_attach && !self.free_comments.is_empty() {
             let arena = &self.printer.arena;
-            if let Some(Item::Commented { after, .. }) = self.items.last_mut() {
+            if let Some(Item::Commented {
+                after,
+                after_ends_with_line_comment,
+                ..
+            }) = self.items.last_mut()
+            {
+                *after_ends_with_line_comment = self.free_ends_with_line_comment;
                 let added =
                     arena.space() + arena.intersperse(self.free_comments.drain(..), arena.space());
                 match after {
@@ -331,10 +344,14 @@ impl<'a> ListStylist<'a> {
                     let is_last = i + 1 == item_count;
                     match item {
                         Item::Comment(cmt) => inner += cmt + arena.hardline(),
-                        Item::Commented { body, after } => {
+                        Item::Commented {
+                            body,
+                            after,
+                            after_ends_with_line_comment,
+                        } => {
                             seen_real_items += 1;
                             inner += body + sep.clone() + after;
-                            if !sty.tight_delim || !is_last {
+                            if !sty.tight_delim || !is_last || after_ends_with_line_comment {
                                 inner += arena.hardline();
                             }
                         }
@@ -359,7 +376,7 @@ impl<'a> ListStylist<'a> {
                                 cmt + arena.space()
                             }
                         }
-                        Item::Commented { body, after } => {
+                        Item::Commented { body, after, .. } => {
                             seen_real_items += 1;
                             let is_last_real = seen_real_items == self.real_item_count;
                             inner += body + after;
@@ -402,7 +419,7 @@ impl<'a> ListStylist<'a> {
                                 cmt + arena.hardline()
                             }
                         }
-                        Item::Commented { body, after } => {
+                        Item::Commented { body, after, .. } => {
                             seen_real_items += 1;
                             let is_last_real = seen_real_items == self.real_item_count;
                             let follow = if let Some(after) = after {
